@@ -61,7 +61,7 @@ class AxiHarness(Harness):
         dut = LiteDRAMAXI2Native(axi, port, w_buffer_depth=depth, r_buffer_depth=depth, base_address=base_address, with_read_modify_write=rmw)
         rd = Responder.reads([port]) + [axi.aw.ready, axi.w.ready, axi.ar.ready, axi.b.valid, axi.b.id, axi.b.resp, axi.r.valid, axi.r.data, axi.r.id, axi.r.last, axi.r.resp]
         self.c = c = fhdl.compile_harness(dut, rd)
-        self.base_address = base_address; self.rmw = bool(rmw); self._hist = {}
+        self.base_address = base_address; self.rmw = bool(rmw); self._hist = {}; self.depth = depth
         self.resp = Responder(c, [port], wmin=wmin, rmin=rmin, qmax=qmax, mem_init=self.mem_init, addr_ok=lambda p, a: a < NW)
         ii = c.ii
         def idx(ep, names): return {n: ii.get(getattr(ep, n)) for n in names}
@@ -233,6 +233,18 @@ class AxiHarness(Harness):
         if coop and not done: ev |= EV_OUT
         if prog: ev |= EV_PROG
         return (awn, awh, wn, wh, arn, arh, bg, rb, rbeat, nwd, rs2, h_lead, h_behind), ev
+
+    def lasso_detail(self, label, cycle_states, loop_choices):
+        """fingerprint of a hang: which channel is owed what"""
+        S, E = cycle_states[0]
+        awn, awh, wn, wh, arn, arh, bg, rb, rbeat, nwd = E[:10]
+        d = dict(rmw=self.rmw, w_led_aw=bool(E[11]), partial_behind_buffered=bool(E[12]))
+        all_data_in_memory = awn == len(self.writes) and wn == len(self.wbeats) and nwd >= len(self.wbeats)
+        if all_data_in_memory and bg < len(self.writes):
+            d["cause"] = "b_response_lost"; d["write_bursts_exceed_buffer_depth"] = len(self.writes) > self.depth
+        elif rb < arn: d["cause"] = "r_beats_missing"
+        else: d["cause"] = "other"
+        return d
 
     def report(self, rule, msg, **detail):
         detail.update(self._hist)
